@@ -146,7 +146,11 @@ def oracle_child(sc, requests, alt_every=5):
     texts = {aid: model.arg_text(ad) for aid, ad in sc["args"].items()}
     out = {}
     alt = {}
-    for n, (sid, path) in enumerate(requests):
+    # References must not depend on one another, so any order is as good as any other; the
+    # REVERSE of the history's order is used so that state leaking from one evaluation into
+    # the next (module-level memo, process-wide numpy/warnings state) contaminates H and O
+    # differently and shows up as a mismatch (which I7 then attributes).
+    for n, (sid, path) in enumerate(reversed(list(requests))):
         d, s, _k, x = reference(sc, texts, sid, path)
         out["%s|%s" % (sid, pkey(path))] = [d, s, x]
         if alt_every and len(requests) <= 4:
